@@ -157,7 +157,7 @@ func main() {
 		}
 		r.Eval(1)
 	}
-	r.FloorCount("fsm_captures_under_writes", int64(r.Pick(12000, 400000)))
+	r.FloorCount("fsm_captures_under_writes", int64(r.Pick(12000, 250000)))
 	r.FloorCount("fsm_capture_distinct_indices", int64(r.Pick(1000, 20000)))
 	r.FloorNontrivial(int64(r.Pick(15, 150)))
 	r.FloorCount("restores_judged", int64(r.Pick(30, 300)))
